@@ -9,11 +9,15 @@ package main
 //     signing time): a non-nil precommit for X at round r needs +2/3 prevotes for X at r; after a non-nil precommit
 //     for X at round r, a prevote for a different block at a later round r2 needs +2/3 prevotes for something other
 //     than X at a round in (r, r2]; an accepted proposal is signed by the round's proposer and has -1 <= POLRound < Round.
+//   - vote sets: whenever a vote set of the node reports +2/3 for a block (or nil), the valid votes of DISTINCT validators
+//     for exactly that block held in that set carry more than 2/3 of the voting power; likewise for "+2/3 of anything"
+//     (signatures re-verified independently; tallied power is not trusted).
 // The global oracles (agreement, bounded progress, deadlock) live in search.go.
 
 import (
 	"bytes"
 	"fmt"
+	"sync"
 
 	"github.com/gnolang/gno/tm2/pkg/bft/types"
 )
@@ -90,6 +94,10 @@ func (e *Engine) localOracles(parent, child *Local, n *Node, nrecBefore int, dea
 				fmt.Sprintf("node v%d gave up its lock on %s@r%d at h%d/r%d without +2/3 prevotes for anything else in a later round", n.val, parent.obs.Locked, parent.obs.LockedRound, rs.Height, rs.Round)})
 		}
 	}
+	// vote sets: reported +2/3 is backed by distinct validators
+	if e.monitors {
+		bad = append(bad, e.checkVoteSets(n)...)
+	}
 	// validity of new commits
 	for h := len(parent.obs.Committed) + 1; h <= len(child.obs.Committed); h++ {
 		if msg := e.checkCommit(n, int64(h)); msg != "" {
@@ -155,4 +163,74 @@ func (e *Engine) checkCommit(n *Node, h int64) string {
 		return fmt.Sprintf("only %d of %d voting power precommitted block %s", power, nVals*10, e.sys.label(meta.BlockID.Hash))
 	}
 	return ""
+}
+
+// ---------------------------------------------------------------------------------------------------------------
+// vote-set monitor
+
+var sigOK sync.Map // sign bytes + signature -> bool (ed25519 verification is deterministic: cache it)
+
+func (e *Engine) validVote(v *types.Vote, idx int, h int64, r int, t types.SignedMsgType) bool {
+	if v == nil || v.ValidatorIndex != idx || v.Height != h || v.Round != r || v.Type != t {
+		return false
+	}
+	k := e.sys.keys[idx]
+	if v.ValidatorAddress != k.addr {
+		return false
+	}
+	sb := v.SignBytes(chainID)
+	ck := string(sb) + "|" + string(v.Signature)
+	if ok, hit := sigOK.Load(ck); hit {
+		return ok.(bool)
+	}
+	ok := k.pub.VerifyBytes(sb, v.Signature)
+	sigOK.Store(ck, ok)
+	return ok
+}
+
+// checkVoteSets re-derives every "+2/3" a vote set of the node reports from the votes the set actually holds.
+func (e *Engine) checkVoteSets(n *Node) []Viol {
+	rs := n.cs.VerifRS()
+	var bad []Viol
+	one := func(vs *types.VoteSet) {
+		if vs == nil {
+			return
+		}
+		h, r, t := vs.Height(), vs.Round(), types.SignedMsgType(vs.Type())
+		bid, maj := vs.TwoThirdsMajority()
+		anyq := vs.HasTwoThirdsAny()
+		if !maj && !anyq {
+			return
+		}
+		var forBlock, voted int64
+		for i := 0; i < nVals; i++ {
+			v := vs.GetByIndex(i)
+			if !e.validVote(v, i, h, r, t) {
+				continue
+			}
+			voted += 10
+			if v.BlockID.Equals(bid) {
+				forBlock += 10
+			}
+		}
+		total := int64(nVals) * 10
+		if maj && forBlock*3 <= total*2 {
+			bad = append(bad, Viol{"voteset:two-thirds-majority-without-distinct-quorum:" + tname(t),
+				fmt.Sprintf("node v%d: %s set h%d/r%d reports +2/3 for %s, but the distinct validators with a valid vote for it hold only %d of %d voting power",
+					n.val, tname(t), h, r, e.sys.label(bid.Hash), forBlock, total)})
+		}
+		if anyq && voted*3 <= total*2 {
+			bad = append(bad, Viol{"voteset:two-thirds-any-without-distinct-quorum:" + tname(t),
+				fmt.Sprintf("node v%d: %s set h%d/r%d reports +2/3 of anything, but the distinct validators with a valid vote hold only %d of %d voting power",
+					n.val, tname(t), h, r, voted, total)})
+		}
+	}
+	if rs.Votes != nil {
+		for r := 0; r <= rs.Votes.Round()+3; r++ {
+			one(rs.Votes.Prevotes(r))
+			one(rs.Votes.Precommits(r))
+		}
+	}
+	one(rs.LastCommit)
+	return bad
 }
